@@ -1,20 +1,29 @@
 """C06 — 2-D point containment (Polygon, ConvexPolygon, Circle, Ellipse) equals exact membership."""
 from fractions import Fraction
 
+import json
+from math import gcd
+
 import numpy as np
 
 import gen
-from common import L, InfraError, ModelRaise, exc_kind
+import history
+from common import L, InfraError, ModelRaise, exc_kind, read_shuffled
 
 RULE = ("simple polygons from gen.c06_simple_polygon (own star/comb/spiral/convex outlines and every kind of the C04 "
         "generator gen.polygon2d; 3-40 vertices; random in-plane turn + exact quarter turns; straddling the origin or "
-        "offset up to 5 sizes into any quadrant; size 2^-10..2^10; both vertex orientations; default and explicit "
-        "(+n, -n, non-unit) normals; (N,2) input, z=0, z=const and random planes of 3-space; ConvexPolygon with shuffled "
-        "vertices) x points on the same 2^-26 grid: uniform in the enlarged bounding box, at distance 10^-6.5..10^-1.5 "
-        "sizes from an edge / a vertex, sharing x and/or y with vertices, inside a triangle of the triangulation; "
-        "circles and ellipses (a<b, a=b, a>b; centre at the origin / integer / float / far) x in-plane points in all "
-        "four quadrants about the centre, at relative distance 10^-6.5..10^-1.5 from the boundary, sharing x or y with "
-        "the centre; distinct = distinct (shape, point set); non-trivial = every case")
+        "offset up to 5 sizes into any quadrant; size 2^-10..2^10; orientation classes ccw / cw / first corner reflex "
+        "(start vertex rolled) x default and explicit (+n, -n, non-unit) normals; (N,2) vertex input, z=0, z=const, "
+        "random planes and almost-flat planes (gen.near_axis_rotation, tilt 1e-7..3e-2 rad, incl. flipped) of 3-space; "
+        "ConvexPolygon with shuffled vertices; one third of the objects reached through mutators "
+        "(history.maybe_via_history), and every object queried again after its centroid / area setters) x points on "
+        "the same 2^-26 grid: uniform in the enlarged bounding box, at distance 10^-6.5..10^-1.5 sizes from an edge / a "
+        "vertex, sharing x and/or y with vertices, inside a triangle of the triangulation, exactly on edges and vertices "
+        "(tie rule, exact comparison only); every point set asked as (N,3), (N,2), single (3,) and (2,) in a per-case "
+        "shuffled order, plus malformed widths; circles and ellipses (a<b, a=b, a>b; centre at the origin / integer / "
+        "float / far; one third reached through the radius / axes / centre setters, all re-queried after a centre "
+        "move) x in-plane points in all four quadrants about the centre, at relative distance 10^-6.5..10^-1.5 from "
+        "the boundary, sharing x or y with the centre; distinct = distinct (shape, point set); non-trivial = every case")
 ASSUMPTIONS = [
     "region of a polygon = interior of the simple closed curve through its vertices; decided exactly (integer "
     "arithmetic on the generating grid coordinates) by a crossing-number test and, independently, by strict membership "
@@ -22,7 +31,13 @@ ASSUMPTIONS = [
     "points closer than 1e-7 * size to the boundary (polygon edges, circle, ellipse, the coded box faces) are skipped",
     "polygons embedded in a random plane: vertices and points are the images of exact in-plane coordinates under the "
     "same rigid motion computed in double precision (in-plane error ~1e-16 * (size + offset))",
-    "rowan.mapping.kabsch is a parameter of the model; contract R^T R = 1, det R = 1, R n = z checked per case (1e-9)",
+    "rowan.mapping.kabsch is a parameter of the model; contract R^T R = 1, det R = 1, R n = z checked per case (1e-9); "
+    "by polygon_inside3_iff / polygon_inside_frame_indep the answer does not depend on which admissible R it returns",
+    "the triangulation certificate (certCheck: boundary chain by edge cancellation, consistent strict orientation; "
+    "offCheck) and the convexity certificate (convexCheck) are evaluated by the Lean driver exactly over Q, on the "
+    "implementation's own rotated vertex array whenever Kabsch returned exactly 1 or diag(-1,1,-1)",
+    "points exactly on the boundary: the property is silent; the implementation is compared bit-exactly with the "
+    "model over Q (correspondence), and the model's value is the one proved in polygon_on_edge_ccw / _cw",
     "Ellipse.is_inside is modelled as coded (one-sided box test); the exact ellipse membership is the oracle",
 ]
 
@@ -65,20 +80,83 @@ def boundary_distance(A, P):
 # ----------------------------------------------------------------------------- polygons
 
 
+def boundary_points(rng, G, k):
+    """k grid points exactly ON the boundary: vertices, and lattice points in the open part of edges"""
+    n = len(G)
+    out = []
+    for _ in range(k):
+        i = int(rng.integers(n))
+        a, b = G[i], G[(i + 1) % n]
+        g = gcd(abs(b[0] - a[0]), abs(b[1] - a[1]))
+        if g > 1 and rng.random() < 0.7:
+            t = int(rng.integers(1, g))
+            out.append([a[0] + t * ((b[0] - a[0]) // g), a[1] + t * ((b[1] - a[1]) // g), "on-edge"])
+        else:
+            out.append([a[0], a[1], "on-vertex"])
+    return out
+
+
+def corner_info(G):
+    """per vertex j of the counter-clockwise polygon G: (reflex?, |sin| of the corner angle)"""
+    n = len(G)
+    out = []
+    for j in range(n):
+        a, b, c = G[j - 1], G[j], G[(j + 1) % n]
+        cr = gen.c06_orient(a, b, c)
+        la = float(np.hypot(b[0] - a[0], b[1] - a[1]))
+        lb = float(np.hypot(c[0] - b[0], c[1] - b[1]))
+        out.append((cr < 0, abs(cr) / (la * lb)))
+    return out
+
+
+def vertex_order(case, n):
+    order = list(range(n))
+    if case["reverse"]:
+        order = order[::-1]
+    st = int(case.get("start", 0)) % n
+    order = order[st:] + order[:st]
+    if case["cls"] == "ConvexPolygon":
+        order = [order[i] for i in case["perm"]]
+    return order
+
+
 def make_polygon_case(rng, ctx):
     poly = gen.c06_simple_polygon(rng)
-    n = len(poly["G"])
-    npts = ctx.budget(70, 210) // max(1, ctx.widen)
-    case = {"shape": "polygon", "poly": poly, "points": gen.c06_query_points(rng, poly, npts)}
+    G = poly["G"]
+    n = len(G)
+    # batch sizes vary from case to case (a vectorised implementation may treat sizes / residues differently):
+    # mostly moderate, sometimes large, sometimes tiny; independent of the widening factor for the large ones
+    u = rng.random()
+    if u < 0.12:
+        npts = int(rng.integers(60, 161))
+    elif u < 0.22:
+        npts = int(rng.integers(1, 8))
+    else:
+        npts = (ctx.budget(44, 150) + int(rng.integers(0, 17))) // max(1, ctx.widen)
+    pts = gen.c06_query_points(rng, poly, npts) + boundary_points(rng, G, max(1, npts // 7))
+    pts = [pts[i] for i in rng.permutation(len(pts))]
+    case = {"shape": "polygon", "poly": poly, "points": pts}
     convex_ok = poly["kind"] in ("convex", "c04:convex", "c04:rect", "c04:triangle")
     case["cls"] = "ConvexPolygon" if (convex_ok and rng.random() < 0.6) else "Polygon"
     case["reverse"] = bool(rng.random() < 0.5)
+    # the first corner (it fixes the stored normal): a clearly convex or, for a third of the non-convex polygons,
+    # a clearly reflex corner of the outline
+    info = corner_info(G)
+    reflex = [j for j in range(n) if info[j][0] and info[j][1] >= 0.02]
+    convex = [j for j in range(n) if not info[j][0] and info[j][1] >= 0.02]
+    want_reflex = bool(reflex) and case["cls"] == "Polygon" and rng.random() < 0.4
+    pool = reflex if want_reflex else (convex or list(range(n)))
+    j = int(pool[int(rng.integers(len(pool)))])
+    base = list(range(n))[::-1] if case["reverse"] else list(range(n))
+    case["start"] = (base.index(j) - 1) % n          # order[1] == j
+    case["first_corner"] = "reflex" if want_reflex else "convex"
     if case["cls"] == "ConvexPolygon":
         case["perm"] = rng.permutation(n).tolist()
-    case["mode"] = ["xy2", "xy3", "zshift", "plane", "plane"][int(rng.integers(5))]
+    case["mode"] = ["xy2", "xy3", "zshift", "plane", "plane", "neartilt", "neartilt"][int(rng.integers(7))]
     case["normal"] = ["default", "default", "+n", "-n", "scaled"][int(rng.integers(5))]
-    if case["mode"] == "plane":
-        case["Q"] = gen.random_rotation(rng).tolist()
+    if case["mode"] in ("plane", "neartilt"):
+        Q = gen.random_rotation(rng) if case["mode"] == "plane" else gen.near_axis_rotation(rng)
+        case["Q"] = np.asarray(Q, dtype=float).tolist()
         size = 2.0 ** (poly["e"] - gen.C06_GRID) * max(max(abs(c) for c in p) for p in poly["G"])
         case["t3"] = (rng.uniform(-3, 3, size=3) * size * (rng.random() < 0.7)).tolist()
     elif case["mode"] == "zshift":
@@ -99,80 +177,171 @@ def embed(case, xy):
     return np.c_[xy, np.zeros(m)] @ Q.T + np.array(case["t3"])[None, :]
 
 
+def unembed(case, p3):
+    """(m,3) points of space -> float in-plane coordinates of their projection along the plane's normal"""
+    mode = case["mode"]
+    if mode in ("xy2", "xy3", "zshift"):
+        return np.asarray(p3, dtype=float)[:, :2].copy()
+    Q = np.array(case["Q"])
+    return ((np.asarray(p3, dtype=float) - np.array(case["t3"])[None, :]) @ Q)[:, :2]
+
+
 def plane_normal(case):
-    if case["mode"] == "plane":
+    if case["mode"] in ("plane", "neartilt"):
         return np.array(case["Q"])[:, 2].copy()
     return np.array([0.0, 0.0, 1.0])
+
+
+def thunk(fn):
+    def run():
+        try:
+            return ("ok", np.asarray(fn()))
+        except Exception as e:  # noqa: BLE001
+            return ("exc", exc_kind(e), repr(e)[:200])
+    return run
+
+
+def rows_arg(width, rows):
+    return [int(width), L([L([float(v) for v in r]) for r in rows])]
+
+
+def float_cross_reliable(GI, p):
+    """the float evaluation dx1*dy2 - dy1*dx2 of Polygon.is_inside has the exact sign for every edge of the integer
+    polygon GI and the integer point p (each product carries a relative rounding error of 2^-53)"""
+    n = len(GI)
+    for i in range(n):
+        a, b = GI[i], GI[(i + 1) % n]
+        t1 = (a[0] - p[0]) * (b[1] - p[1])
+        t2 = (a[1] - p[1]) * (b[0] - p[0])
+        if t1 != t2 and abs(t1 - t2) << 46 <= max(abs(t1), abs(t2)):
+            return False
+    return True
+
+
+def _orF(a, b, c):
+    return (b[0] - a[0]) * (c[1] - a[1]) - (b[1] - a[1]) * (c[0] - a[0])
+
+
+def _on_closed(a, b, p):
+    return _orF(a, b, p) == 0 and (a[0] - p[0]) * (b[0] - p[0]) + (a[1] - p[1]) * (b[1] - p[1]) <= 0
+
+
+def steiner_triangulation(T, p):
+    """T: triangles (three points of Fractions each), consistently oriented; p lies in the open part of an interior
+    edge shared by two of them.  Those two are replaced by four triangles round a Steiner point next to the edge, so that
+    p is on no closed edge any more.  Returns the new list or None (the Lean checker judges the result anyway)."""
+    hits = []
+    for k, t in enumerate(T):
+        for i in range(3):
+            u, v, w = t[i], t[(i + 1) % 3], t[(i + 2) % 3]
+            if _orF(u, v, p) == 0 and (u[0] - p[0]) * (v[0] - p[0]) + (u[1] - p[1]) * (v[1] - p[1]) < 0:
+                hits.append((k, u, v, w))
+    if len(hits) != 2:
+        return None
+    (k1, u, v, w1), (k2, v2, u2, w2) = hits
+    if (u, v) != (u2, v2):
+        return None
+    sg = 1 if _orF(u, v, w1) > 0 else -1
+    rest = [t for k, t in enumerate(T) if k not in (k1, k2)]
+    for lam in (Fraction(1, 2), Fraction(1, 4), Fraction(3, 4), Fraction(3, 8), Fraction(5, 8)):
+        for ek in (6, 10, 14, 20, 26):
+            eps = Fraction(1, 2 ** ek)
+            s = (u[0] + lam * (v[0] - u[0]) + eps * (w1[0] - u[0]), u[1] + lam * (v[1] - u[1]) + eps * (w1[1] - u[1]))
+            if Fraction(float(s[0])) != s[0] or Fraction(float(s[1])) != s[1]:
+                continue
+            new = [(s, v, w1), (s, w1, u), (s, u, w2), (s, w2, v)]
+            if any(_orF(*t) * sg <= 0 for t in new):
+                continue
+            if any(_on_closed(t[i], t[(i + 1) % 3], p) for t in new for i in range(3)):
+                continue
+            return rest + new
+    return None
+
+
+def frac_pt(r):
+    return (Fraction(float(r[0])), Fraction(float(r[1])))
 
 
 def eval_polygon(ctx, case):
     import coxeter
     from coxeter.shapes.polygon import _align_points_by_normal
     poly = case["poly"]
-    G = [tuple(p) for p in poly["G"]]
+    G = [tuple(int(c) for c in p) for p in poly["G"]]
     unit = 2.0 ** (poly["e"] - gen.C06_GRID)
     n = len(G)
-    order = list(range(n))
-    if case["reverse"]:
-        order = order[::-1]
-    if case["cls"] == "ConvexPolygon":
-        order = [order[i] for i in case["perm"]]
+    order = vertex_order(case, n)
     A = np.array(G, dtype=float) * unit                       # exact
     V2 = A[order]
     PI = [(int(p[0]), int(p[1])) for p in case["points"]]
+    pcl = [str(p[2]) for p in case["points"]]
     P2 = np.array(PI, dtype=float).reshape(-1, 2) * unit      # exact
     size = float(np.linalg.norm(A.max(axis=0) - A.min(axis=0)))
     npts = len(PI)
     cls = case["cls"]
+    mode = case["mode"]
+    oclass = ("cw" if case["reverse"] else "ccw") + ("+reflex-first" if case.get("first_corner") == "reflex" else "")
     ctx.count("shape:" + cls)
     ctx.count("poly-kind:" + poly["kind"])
-    ctx.count("orientation:" + ("cw" if case["reverse"] else "ccw"))
-    ctx.count("mode:" + case["mode"])
+    ctx.count("orientation:" + oclass)
+    ctx.count("mode:" + mode)
     ctx.count("normal:" + case["normal"])
+    ctx.count("class:%s|%s|%s" % (oclass, case["normal"], "xy" if mode in ("xy2", "xy3", "zshift") else mode))
     ctx.count("scale=1" if poly["e"] == 0 else "scale!=1")
-    for p in case["points"]:
-        ctx.count("point:" + str(p[2]))
+    for c in pcl:
+        ctx.count("point:" + c)
+    bare = dict(case, points=[])
 
-    # ---- construct
+    # ---- construct (directly, then possibly the same geometry reached through the public mutators)
     nrm = plane_normal(case)
     normal = {"default": None, "+n": nrm, "-n": -nrm, "scaled": nrm * case["nscale"]}[case["normal"]]
-    verts_in = V2 if case["mode"] == "xy2" else embed(case, V2)
+    verts_in = V2 if mode == "xy2" else embed(case, V2)
     try:
         if cls == "ConvexPolygon":
             shp = coxeter.shapes.ConvexPolygon(verts_in, normal=normal)
         else:
             shp = coxeter.shapes.Polygon(verts_in, normal=normal)
     except Exception as e:
-        ctx.fail(cls + ".__init__:raises", "constructor raised %s on a simple polygon" % exc_kind(e),
-                 dict(case, points=[]), repr(e))
+        ctx.fail(cls + ".__init__:raises", "constructor raised %s on a simple polygon" % exc_kind(e), bare, repr(e))
         return
+    key = json.dumps([poly["G"], poly["e"], order, mode, case["normal"], npts], sort_keys=True)
+    hrng = history.rng_for(key)
+    shp, how = history.maybe_via_history(shp, hrng, 1.0 / 3.0, ctx)
+    direct = how.startswith("direct")
     P3 = embed(case, P2)
     offs = float(np.max(np.abs(shp.vertices))) + size
 
-    # ---- implementation
-    try:
-        res = np.asarray(shp.is_inside(P3))
-    except Exception as e:
-        ctx.fail(cls + ".is_inside:raises", "is_inside raised %s" % exc_kind(e), dict(case, points=[]), repr(e))
+    # ---- the queries, in an order drawn per case: (N,3), (N,2), (N,2) padded by hand, single (3,), single (2,),
+    #      malformed widths
+    nsingle = min(npts, 8 if ctx.tier == "quick" else 16)
+    sel = [int(i) for i in hrng.choice(npts, size=nsingle, replace=False)] if npts else []
+    P3pad = np.c_[P3[:, :2], np.zeros(npts)]
+    getters = {
+        "N3": thunk(lambda: shp.is_inside(P3)),
+        "N2": thunk(lambda: shp.is_inside(P3[:, :2].copy())),
+        "N3pad": thunk(lambda: shp.is_inside(P3pad)),
+        "one3": lambda: [thunk(lambda i=i: shp.is_inside(P3[i]))() for i in sel],
+        "one2": lambda: [thunk(lambda i=i: shp.is_inside(P3[i, :2].copy()))() for i in sel],
+        "list3": thunk(lambda: shp.is_inside(P3[:3].tolist())),
+        "w0": thunk(lambda: shp.is_inside([])),
+        "w1": thunk(lambda: shp.is_inside([[1.0], [2.0]])),
+        "w4": thunk(lambda: shp.is_inside(np.c_[P3[:2], np.ones(len(P3[:2]))])),
+        "scalar": thunk(lambda: shp.is_inside(0.5)),
+        "empty3": thunk(lambda: shp.is_inside(np.zeros((0, 3)))),
+        "empty2": thunk(lambda: shp.is_inside(np.zeros((0, 2)))),
+    }
+    got, qorder = read_shuffled(getters, key)
+    ctx.count("first-query:" + qorder[0])
+    rN3 = got["N3"]
+    if rN3[0] != "ok":
+        ctx.fail(cls + ".is_inside:raises", "is_inside raised %s" % rN3[1], bare, rN3[2])
         return
+    res = rN3[1]
     if res.shape != (npts,) or res.dtype != np.bool_:
-        ctx.fail(cls + ".is_inside:shape", "result is not a boolean (N,) array", dict(case, points=[]),
-                 [str(res.shape), str(res.dtype)])
+        ctx.fail(cls + ".is_inside:shape", "result is not a boolean (N,) array", bare, [str(res.shape), str(res.dtype)])
         return
 
-    # ---- exact classification on the generating coordinates (two independent exact methods)
+    # ---- exact classification on the generating coordinates
     status = [classify_int(G, p) for p in PI]
-    tri_tok = L([np.r_[A[a], A[b], A[c]] for a, b, c in poly["tris"]])
-    q = ctx.driver.Q("spec.region", tri_tok, L([r for r in P2]))
-    if q[0] != Fraction(gen.c06_area2(G)) * Fraction(unit) ** 2:
-        raise InfraError("C06: triangulation area differs from the shoelace area")
-    cnt = q[1::2]
-    onb = q[2::2]
-    for i in range(npts):
-        if onb[i]:
-            continue
-        if cnt[i] not in (0, 1) or (cnt[i] == 1) != (status[i] == "in"):
-            raise InfraError("C06: the two exact oracles disagree at point %r of %r" % (PI[i], poly["G"]))
     dist = boundary_distance(A, P2) if npts else np.zeros(0)
     far = dist >= MARGIN * size
     ctx.skipped_near_boundary += int(np.sum(~far))
@@ -181,53 +350,164 @@ def eval_polygon(ctx, case):
         if far[i]:
             ctx.count("exact:" + status[i])
 
-    # ---- theorem instance: the model over Q on the generating coordinates equals the spec
-    qm = ctx.driver.Q("poly.inside", L([r for r in V2]), L([r for r in P2]))
-    sgn = -1 if case["reverse"] else 1
-    if cls != "ConvexPolygon":
-        for i in range(npts):
-            if status[i] == "on":
-                continue
-            if qm[2 * i] != (status[i] == "in") or (not onb[i] and qm[2 * i + 1] != 2 * sgn * cnt[i]):
-                raise InfraError("C06: polygon_inside_iff instance fails at %r" % (PI[i],))
-
-    # ---- B: model (Float) on the implementation's own rotated arrays
+    # ---- B: the implementation's own frame
     verts_rot, R = _align_points_by_normal(shp.normal, shp.vertices)
     nn = np.asarray(shp.normal, dtype=float)
-    cerr = max(float(np.max(np.abs(R.T @ R - np.eye(3)))), abs(float(np.linalg.det(R)) - 1.0),
-               float(np.max(np.abs(R @ nn - np.array([0.0, 0.0, 1.0])))))
+    cerr = max(float(np.max(np.abs(R.T @ R - np.eye(3)))), float(np.max(np.abs(R @ R.T - np.eye(3)))),
+               abs(float(np.linalg.det(R)) - 1.0), float(np.max(np.abs(R @ nn - np.array([0.0, 0.0, 1.0])))))
     if not cerr <= 1e-9:
         ctx.contract_failures.append({"contract": "kabsch: R^T R = 1, det R = 1, R n = z", "err": cerr,
                                       "normal": nn.tolist()})
-        ctx.disagree("poly.kabsch-contract", dict(case, points=[]), cerr)
-    if case["mode"] in ("xy2", "xy3", "zshift"):
-        ctx.count("R:" + ("identity" if np.array_equal(R, np.eye(3)) else
-                          "half-turn" if np.array_equal(R, np.diag([-1.0, 1.0, -1.0])) else "other"))
+        ctx.disagree("poly.kabsch-contract", bare, cerr)
+    frame = ("identity" if np.array_equal(R, np.eye(3)) else
+             "half-turn" if np.array_equal(R, np.diag([-1.0, 1.0, -1.0])) else "other")
+    if mode in ("xy2", "xy3", "zshift"):
+        ctx.count("R:" + frame)
+    exactR = direct and frame != "other" and mode in ("xy2", "xy3", "zshift")
     pts_rot = np.dot(P3, R.T)
+
+    # ---- the certificates, evaluated by the Lean driver exactly over Q
+    sx = -1.0 if (exactR and frame == "half-turn") else 1.0
+    flip = np.array([sx, 1.0])
+    if exactR:
+        Vc = np.ascontiguousarray(verts_rot[:, :2])   # the implementation's own rotated vertex array (exact dyadics)
+        Pc = np.ascontiguousarray(pts_rot[:, :2])
+        if not (sorted(map(tuple, Vc.tolist())) == sorted(map(tuple, (A * flip).tolist()))
+                and np.array_equal(Pc, P2 * flip)):
+            ctx.disagree("poly.exact-frame", bare, "rotated arrays are not the exactly rotated inputs")
+            exactR = False
+    if not exactR:
+        sx, flip = 1.0, np.array([1.0, 1.0])
+        Vc = A.copy() if cls == "ConvexPolygon" else V2
+        Pc = P2
+    VcF = [frac_pt(r) for r in Vc]
+    ccw_frame = sum(VcF[i][0] * VcF[(i + 1) % n][1] - VcF[(i + 1) % n][0] * VcF[i][1] for i in range(n)) > 0
+    # the ear-clipping triangles (counter-clockwise in the generating coordinates), oriented like the polygon cycle
+    if ccw_frame == (sx > 0):
+        Tc = [np.r_[A[a] * flip, A[b] * flip, A[c] * flip] for a, b, c in poly["tris"]]
+    else:
+        Tc = [np.r_[A[a] * flip, A[c] * flip, A[b] * flip] for a, b, c in poly["tris"]]
+    q = ctx.driver.Q("cert.region", L([r for r in Vc]), L(Tc), L([r for r in Pc]))
+    if not q[0]:
+        raise InfraError("C06: the Lean certificate checker rejects the ear-clipping triangulation of %r" % (poly["G"],))
+    ctx.count("cert:accepted")
+    rec = [q[1 + 6 * i: 7 + 6 * i] for i in range(npts)]      # off, inRegion, count, model, halfTurnSum, onPolygon
+    qmodel = np.zeros(npts, dtype=bool)
+    decided = np.zeros(npts, dtype=bool)
+    TcF = None
+    for i in range(npts):
+        off, inreg, cnt, mdl, hs, onp = rec[i]
+        qmodel[i] = bool(mdl)
+        if onp != (status[i] == "on"):
+            raise InfraError("C06: onPolygon (Lean, Q) and the integer oracle disagree at %r" % (PI[i],))
+        if onp:
+            ctx.count("cert:on-boundary")
+            if pcl[i] == "on-edge" and sum(gen.c06_on_segment(G[k], G[(k + 1) % n], PI[i]) for k in range(n)) == 1:
+                # polygon_on_edge_ccw / _cw : +1 -> False, -1 -> True
+                if hs != (1 if ccw_frame else -1) or bool(mdl) != (not ccw_frame):
+                    raise InfraError("C06: polygon_on_edge instance fails at %r (sum %r)" % (PI[i], hs))
+                ctx.count("tie-rule:on-edge:" + ("ccw-frame->False" if ccw_frame else "cw-frame->True"))
+            continue
+        if not off:
+            # the point is on a diagonal of the ear clipping: a certificate with a Steiner point for this point
+            if TcF is None:
+                TcF = [(frac_pt(t[0:2]), frac_pt(t[2:4]), frac_pt(t[4:6])) for t in Tc]
+            T2 = steiner_triangulation(TcF, frac_pt(Pc[i]))
+            if T2 is None:
+                ctx.count("cert:steiner-not-found")
+                continue
+            q2 = ctx.driver.Q("cert.region", L([r for r in Vc]),
+                              L([np.array([float(c) for pt in t for c in pt]) for t in T2]), L([Pc[i]]))
+            if not (q2[0] and q2[1]):
+                ctx.count("cert:steiner-rejected")
+                continue
+            ctx.count("cert:steiner")
+            off, inreg, cnt, mdl, hs, onp = q2[1:7]
+        if cnt not in (0, 1) or bool(inreg) != (status[i] == "in"):
+            raise InfraError("C06: Lean spec over Q and the integer oracle disagree at %r of %r" % (PI[i], poly["G"]))
+        if bool(mdl) != bool(inreg) or hs != (2 if ccw_frame else -2) * cnt:
+            raise InfraError("C06: polygon_inside_certified instance fails at %r" % (PI[i],))
+        decided[i] = True
+    ctx.count("cert:points-certified", int(np.sum(decided)))
+
+    # the even-odd rule (winding_parity_crossing / inside_eq_evenOdd_certified): triangulation-free
+    qe = ctx.driver.Q("spec.evenodd", L([r for r in Vc]), L([r for r in Pc]))
+    for i in range(npts):
+        X, w, onp = qe[3 * i: 3 * i + 3]
+        if onp:
+            continue
+        if (w - X) % 2 != 0 or abs(w) > 1:
+            raise InfraError("C06: winding_parity_crossing instance fails / |winding| > 1 for a simple polygon at %r" % (PI[i],))
+        if (X % 2 == 1) != (status[i] == "in") or bool(qmodel[i]) != (X % 2 == 1):
+            raise InfraError("C06: even-odd rule (Lean, Q, vertical ray) and the integer oracle (horizontal ray) "
+                             "disagree at %r" % (PI[i],))
+    ctx.count("even-odd-checked")
+
+    # convex polygons: the triangulation-free certificate
+    if poly["kind"] in ("convex", "c04:convex", "c04:rect", "c04:triangle"):
+        qc = ctx.driver.Q("convex.inside", L([r for r in Vc]), L([r for r in Pc]))
+        if qc[0] or qc[1]:
+            ctx.count("convex-cert:accepted")
+            for i in range(npts):
+                onp, inc, mdl = qc[2 + 3 * i: 5 + 3 * i]
+                if onp:
+                    continue
+                if bool(inc) != (status[i] == "in") or bool(mdl) != bool(inc):
+                    raise InfraError("C06: convex_inside_certified instance fails at %r" % (PI[i],))
+        else:
+            ctx.count("convex-cert:not-strictly-convex")
+
+    # intrinsic membership in space (no rotation), for polygons parallel to the xy plane
+    if exactR:
+        z0 = float(case["z"]) if mode == "zshift" else 0.0
+        T3 = [np.r_[A[a], z0, A[b], z0, A[c], z0] for a, b, c in poly["tris"]]
+        q3 = ctx.driver.Q("spec.region3", nn + 0.0, L(T3), L([r for r in P3]))
+        for i in range(npts):
+            if not q3[2 * i + 1] and bool(q3[2 * i]) != (status[i] == "in"):
+                raise InfraError("C06: intrinsic spec (inRegion3) and the integer oracle disagree at %r" % (PI[i],))
+        ctx.count("intrinsic-spec-checked")
+
+    # ---- B: model (Float) on the implementation's own arrays
     try:
         fm = ctx.driver.F("poly.inside", L([r[:2] for r in verts_rot]), L([r[:2] for r in pts_rot]))
         m_in = np.array(fm[0::2], dtype=bool)
         f3 = ctx.driver.F("poly.inside3", R.ravel(), L([r for r in shp.vertices]), L([r for r in P3]))
+        a3 = np.array(ctx.driver.F("poly.arg", R.ravel(), L([r for r in shp.vertices]), *rows_arg(3, P3)), dtype=bool)
+        a2 = np.array(ctx.driver.F("poly.arg", R.ravel(), L([r for r in shp.vertices]), *rows_arg(2, P3[:, :2])),
+                      dtype=bool)
     except ModelRaise as e:
-        ctx.disagree("poly.inside", dict(case, points=[]), "model raised " + e.kind)
+        ctx.disagree("poly.inside", bare, "model raised " + e.kind)
         return
     m3_in = np.array(f3[:npts], dtype=bool)
     m3_pts = np.array(f3[npts:4 * npts], dtype=float).reshape(npts, 3)
     m3_verts = np.array(f3[4 * npts:], dtype=float).reshape(n, 3)
-    for i in range(npts):
-        if far[i] and m_in[i] != res[i]:
-            ctx.disagree("poly.inside", dict(case, points=[case["points"][i]]), [bool(res[i]), bool(m_in[i])])
-            break
-    for i in range(npts):
-        if far[i] and m3_in[i] != res[i]:
-            ctx.disagree("poly.inside3", dict(case, points=[case["points"][i]]), [bool(res[i]), bool(m3_in[i])])
-            break
+    for name, mm in (("poly.inside", m_in), ("poly.inside3", m3_in), ("poly.arg:N3", a3)):
+        for i in range(npts):
+            if far[i] and mm[i] != res[i]:
+                ctx.disagree(name, dict(case, points=[case["points"][i]]), [bool(res[i]), bool(mm[i])])
+                break
     if not (ctx.close_enough(m3_pts, pts_rot, offs) and ctx.close_enough(m3_verts, verts_rot, offs)):
-        ctx.disagree("poly.inside3:rotation", dict(case, points=[]), "rotated coordinates differ")
-    # the tie rule is exercised exactly: count rotated points sharing x with a rotated vertex
+        ctx.disagree("poly.inside3:rotation", bare, "rotated coordinates differ")
     if npts:
         ties = int(np.sum(np.any(pts_rot[:, None, 0] == verts_rot[None, :, 0], axis=1)))
         ctx.count("rotated-x-ties", ties)
+    # exact frames: the implementation must agree with the model over Q on EVERY point, boundary points included
+    if exactR:
+        GI = [(int(round(sx)) * G[i][0], G[i][1]) for i in range(n)]
+        nex = 0
+        for i in range(npts):
+            if not float_cross_reliable(GI, (int(round(sx)) * PI[i][0], PI[i][1])):
+                ctx.count("exact-compare:skipped-rounding")
+                continue
+            nex += 1
+            if bool(res[i]) != bool(qmodel[i]):
+                ctx.disagree("poly.exact", dict(case, points=[case["points"][i]]),
+                             {"impl": bool(res[i]), "model-over-Q": bool(qmodel[i]), "class": pcl[i],
+                              "status": status[i]})
+                break
+            if status[i] == "on":
+                ctx.count("tie-rule:impl=model:" + pcl[i] + ":" + str(bool(res[i])))
+        ctx.count("exact-compare", nex)
 
     # ---- C: implementation vs exact membership
     for i in range(npts):
@@ -235,40 +515,113 @@ def eval_polygon(ctx, case):
             ctx.fail(cls + ".is_inside:membership",
                      "is_inside differs from exact membership in the polygon's region",
                      dict(case, points=[case["points"][i]]),
-                     {"impl": bool(res[i]), "exact": status[i], "dist/size": float(dist[i] / size)})
+                     {"impl": bool(res[i]), "exact": status[i], "dist/size": float(dist[i] / size), "reached": how,
+                      "query-order": qorder})
             break
 
-    # ---- batch vs single (3,), and (N,2) points for polygons in the plane z = 0
-    nsingle = min(npts, 12 if ctx.tier == "quick" else 25)
-    for i in range(nsingle):
-        if not far[i]:
+    # ---- (N,2) points: the points (x, y, 0) of space
+    rN2, rPad = got["N2"], got["N3pad"]
+    pad_rot = np.dot(P3pad, R.T)
+    far2 = boundary_distance(verts_rot[:, :2], pad_rot[:, :2]) >= MARGIN * size if npts else np.zeros(0, dtype=bool)
+    ok = (rN2[0] == "ok" and rPad[0] == "ok" and rN2[1].shape == (npts,) and rN2[1].dtype == np.bool_
+          and bool(np.all(rN2[1][far2] == rPad[1][far2])))
+    if ok and mode in ("xy2", "xy3"):
+        ok = bool(np.all(rN2[1][far] == exact[far]))
+    if not ok:
+        ctx.fail(cls + ".is_inside:N2-points", "(N,2) points are not treated as the points (x, y, 0)",
+                 dict(case, points=case["points"][:5]),
+                 {"N2": str(rN2[1:])[:200], "padded": str(rPad[1:])[:200], "reached": how, "query-order": qorder})
+    else:
+        if np.any(a2[far2] != rN2[1][far2]):
+            ctx.disagree("poly.arg:N2", bare, "padded (N,2) path differs")
+        if exactR and mode in ("xy2", "xy3") and np.any(rN2[1] != res):
+            ctx.disagree("poly.exact:N2", bare, "(N,2) and (N,3) answers differ for a polygon in the plane z = 0")
+        ctx.count("N2-checked:" + ("in-plane" if mode in ("xy2", "xy3") else "projected"))
+
+    # ---- batch vs single, both layouts; list input; empty input
+    for lay, ref, farx in (("one3", res, far), ("one2", rN2[1] if rN2[0] == "ok" else None, far2)):
+        if ref is None:
             continue
+        for k, i in enumerate(sel):
+            if not farx[i]:
+                continue
+            one = got[lay][k]
+            if not (one[0] == "ok" and one[1].shape == (1,) and one[1].dtype == np.bool_ and bool(one[1][0]) == bool(ref[i])):
+                ctx.fail(cls + ".is_inside:batch-vs-single", "single-point call differs from the batch call",
+                         dict(case, points=[case["points"][i]]),
+                         {"layout": lay, "single": str(one[1:])[:200], "batch": bool(ref[i]), "query-order": qorder})
+                break
+        ctx.count("single-checked:" + lay, len(sel))
+    l3 = got["list3"]
+    if not (l3[0] == "ok" and l3[1].shape == (min(3, npts),) and bool(np.all(l3[1][far[:3]] == res[:3][far[:3]]))):
+        ctx.fail(cls + ".is_inside:batch-vs-single", "a list of rows is not treated like the array", bare, str(l3)[:200])
+    for nm, w in (("empty3", 3), ("empty2", 2)):
+        r0 = got[nm]
+        if not (r0[0] == "ok" and r0[1].shape == (0,)):
+            ctx.fail(cls + ".is_inside:shape", "an empty (0,%d) array does not give an empty result" % w, bare, str(r0)[:200])
+    # malformed widths: the model raises ValueError (np.dot shape mismatch)
+    for nm, w, rows in (("w0", 0, [[]]), ("w1", 1, [[1.0], [2.0]]), ("w4", 4, np.c_[P3[:2], np.ones(len(P3[:2]))]),
+                        ("scalar", 1, [[0.5]])):
         try:
-            one = np.asarray(shp.is_inside(P3[i]))
-            ok = one.shape == (1,) and bool(one[0]) == bool(res[i])
-        except Exception as e:
-            one, ok = repr(e), False
-        if not ok:
-            ctx.fail(cls + ".is_inside:batch-vs-single", "single-point call differs from the batch call",
-                     dict(case, points=[case["points"][i]]), [str(one), bool(res[i])])
-            break
-    if case["mode"] in ("xy2", "xy3"):
+            mk = ctx.driver.F("poly.arg", R.ravel(), L([r for r in shp.vertices]), *rows_arg(w, rows))
+            mk = "ok"
+        except ModelRaise as e:
+            mk = e.kind
+        ik = "ok" if got[nm][0] == "ok" else got[nm][1]
+        if mk != ik:
+            ctx.disagree("poly.arg:width-%d" % w, bare, {"impl": ik, "model": mk})
+    ctx.count("arg-shapes-checked")
+
+    # ---- the same object after its public mutators: query -> move -> query -> resize -> query
+    if hrng.random() < 0.5:
+        mutate_and_requery(ctx, case, shp, cls, P3, exact, far, size, how, hrng)
+
+
+def mutate_and_requery(ctx, case, shp, cls, P3, exact, far, size, how, hrng):
+    steps = ["move", "resize"] if hrng.random() < 0.5 else ["resize", "move"]
+    pts = P3.copy()
+    scale_now = 1.0
+    for st in steps:
         try:
-            r2 = np.asarray(shp.is_inside(P2))
-            ok = r2.shape == (npts,) and bool(np.all(r2[far] == res[far]))
-            one2 = np.asarray(shp.is_inside(P2[0])) if npts else np.zeros(1, dtype=bool)
-            ok = ok and (npts == 0 or not far[0] or (one2.shape == (1,) and bool(one2[0]) == bool(res[0])))
-        except Exception as e:
-            r2, ok = repr(e), False
-        if not ok:
-            ctx.fail(cls + ".is_inside:N2-points", "(N,2) points are not treated as points of the plane z = 0",
-                     dict(case, points=case["points"][:5]), str(r2)[:300])
-        else:
-            m2 = np.array(ctx.driver.F("poly.inside2", R.ravel(), L([r for r in shp.vertices]), L([r for r in P2])),
-                          dtype=bool)
-            if np.any(m2[far] != r2[far]):
-                ctx.disagree("poly.inside2", dict(case, points=[]), "padded (N,2) path differs")
-        ctx.count("N2-checked")
+            before = np.array(shp.vertices, dtype=float)
+            if st == "move":
+                d = hrng.normal(size=3) * size * float(hrng.uniform(0.3, 3.0))
+                if case["mode"] in ("xy2", "xy3", "zshift") and hrng.random() < 0.7:
+                    d[2] = 0.0
+                attr = "centroid" if (hrng.random() < 0.5 or not hasattr(type(shp), "center")) else "center"
+                setattr(shp, attr, np.array(getattr(shp, attr), dtype=float) + d)
+                after = np.array(shp.vertices, dtype=float)
+                disp = np.mean(after - before, axis=0)
+                if not np.allclose(after - before, disp[None, :], rtol=0, atol=1e-11 * (size + np.max(np.abs(after)))):
+                    ctx.count("requery:setter-not-a-translation")    # C08's business
+                    return
+                pts = pts + disp[None, :]
+            else:
+                a0 = float(shp.area)
+                shp.area = 4.0 * a0
+                after = np.array(shp.vertices, dtype=float)
+                if not np.allclose(after, 2.0 * before, rtol=1e-12, atol=1e-12 * size):
+                    ctx.count("requery:setter-not-a-doubling")
+                    return
+                pts = 2.0 * pts
+                scale_now *= 2.0
+            r = np.asarray(shp.is_inside(pts))
+        except Exception as e:  # noqa: BLE001
+            ctx.fail(cls + ".is_inside:raises", "is_inside raised %s after %s" % (exc_kind(e), st),
+                     dict(case, points=[]), repr(e))
+            return
+        ctx.count("requery:after-" + st)
+        # the moved points carry a rounding error of ~1e-16 * (size + offset): far below the margin
+        bad = [i for i in range(len(pts)) if far[i] and bool(r[i]) != bool(exact[i])] if r.shape == (len(pts),) else [0]
+        if bad:
+            i = bad[0]
+            ctx.fail(cls + ".is_inside:membership:after-" + st,
+                     "is_inside of the same object after its %s setter differs from exact membership in the moved "
+                     "polygon" % ("centroid/center" if st == "move" else "area"),
+                     dict(case, points=[case["points"][i]]),
+                     {"impl": str(r[i] if r.shape == (len(pts),) else r.shape), "exact": bool(exact[i]), "steps": steps,
+                      "reached": how})
+            return
 
 
 # ----------------------------------------------------------------------------- circles and ellipses
@@ -276,7 +629,7 @@ def eval_polygon(ctx, case):
 
 def make_curved_case(rng, ctx):
     sh = gen.c06_curved(rng)
-    npts = ctx.budget(100, 300) // max(1, ctx.widen)
+    npts = (ctx.budget(90, 290) + int(rng.integers(0, 21))) // max(1, ctx.widen)
     return {"shape": sh["shape"], "curved": sh, "points": gen.c06_curved_points(rng, sh, npts),
             "zoff": [1e-9, 3e-7, 0.5 * max(sh["a"], sh["b"])]}
 
@@ -296,6 +649,18 @@ def eval_curved(ctx, case):
     except Exception as e:
         ctx.fail(cls + ".__init__:raises", "constructor raised " + exc_kind(e), dict(case, points=[]), repr(e))
         return
+    key = json.dumps([sh["shape"], a, b, [float(v) for v in cen], len(case["points"])])
+    hrng = history.rng_for(key)
+    # a third of the shapes are reached through the radius / axes and centre setters (same numbers put back)
+    shp, how = history.maybe_via_history(shp, hrng, 1.0 / 3.0, ctx)
+    if is_circle:
+        same = float(shp.radius) == a
+    else:
+        same = float(shp.a) == a and float(shp.b) == b
+    if not (same and np.array_equal(np.asarray(shp.centroid, dtype=float), np.array([float(v) for v in cen]))):
+        ctx.count("reached:setters-did-not-restore")       # C08's business; judge the directly built shape
+        shp = coxeter.shapes.Circle(a, cen) if is_circle else coxeter.shapes.Ellipse(a, b, cen)
+        how = "direct"
     cf = np.array([float(v) for v in cen])
     pts = np.array([[float(p[0]), float(p[1]), float(p[2])] for p in case["points"]]).reshape(-1, 3)
     npts = len(pts)
@@ -402,6 +767,68 @@ def eval_curved(ctx, case):
                      dict(case, points=[case["points"][i]], zoff=[]), [str(one), bool(res[i])])
             break
 
+    # ---- argument handling (correspondence): (N,3) rows, list input, and the widths NumPy broadcasting
+    #      accepts (1) or rejects (0, 2, 4) in `np.atleast_2d(points) - self.centroid`
+    op = "circle.arg" if is_circle else "ellipse.arg"
+    head = [a, cf] if is_circle else [a, b, cf]
+    probes = {"w3": (3, pts[:4]), "w2": (2, pts[:4, :2]), "w1": (1, pts[:4, :1]), "w4": (4, np.c_[pts[:2], np.ones(len(pts[:2]))]),
+              "w0": (0, [[]]), "scalar": (1, [[float(pts[0, 0])]] if npts else [[0.5]])}
+    pyarg = {"w3": pts[:4].tolist(), "w2": pts[:4, :2], "w1": pts[:4, :1], "w4": np.c_[pts[:2], np.ones(len(pts[:2]))],
+             "w0": [], "scalar": float(pts[0, 0]) if npts else 0.5}
+    got, qorder = read_shuffled({k: thunk(lambda k=k: shp.is_inside(pyarg[k])) for k in probes}, key)
+    for k, (w, rows) in probes.items():
+        try:
+            mk = ("ok", np.array(ctx.driver.F(op, *head, *rows_arg(w, rows)), dtype=bool))
+        except ModelRaise as e:
+            mk = ("exc", e.kind)
+        g = got[k]
+        if g[0] != mk[0] or (g[0] == "exc" and g[1] != mk[1]):
+            ctx.disagree(op + ":" + k, dict(case, points=[], zoff=[]), {"impl": str(g[:2]), "model": str(mk[:2])})
+        elif g[0] == "ok" and k == "w3":
+            sel = farB[: len(g[1])]
+            if g[1].shape != mk[1].shape or np.any(g[1][sel] != mk[1][sel]) or np.any(g[1][sel] != res[: len(g[1])][sel]):
+                ctx.disagree(op + ":" + k, dict(case, points=[], zoff=[]), "rows answered differently")
+    ctx.count("arg-shapes-checked")
+
+    # ---- the same object after a centre move: query -> move -> query
+    if hrng.random() < 0.6:
+        d = np.r_[hrng.uniform(-3, 3, size=2) * max(a, b), (hrng.uniform(-3, 3) * max(a, b)) if hrng.random() < 0.5 else 0.0]
+        attr = "centroid" if hrng.random() < 0.5 else "center"
+        try:
+            setattr(shp, attr, cf + d)
+            c1 = np.asarray(shp.centroid, dtype=float)
+            moved = pts + (c1 - cf)[None, :]
+            moved[:, 2] = c1[2]                      # in-plane points of the moved shape
+            r2 = np.asarray(shp.is_inside(moved))
+        except Exception as e:  # noqa: BLE001
+            ctx.fail(cls + ".is_inside:raises", "is_inside raised %s after a centre move" % exc_kind(e),
+                     dict(case, points=[], zoff=[]), repr(e))
+            return
+        # the moved points are rounded: compare with exact membership about the NEW centre on the moved doubles
+        c2 = c1[:2]
+        inplane = moved[:, 2] == c1[2]
+        d2 = moved - c1
+        rho2 = np.sqrt((d2[:, 0] / a) ** 2 + (d2[:, 1] / b) ** 2)
+        fc2 = (np.abs(rho2 - 1) >= MARGIN) & inplane
+        fb2 = (np.abs(d2[:, 0] / a - 1) >= MARGIN) & (np.abs(d2[:, 1] / b - 1) >= MARGIN)
+        if is_circle:
+            ex2 = np.array(ctx.driver.Q("spec.disk", a, c2, L([r[:2] for r in moved])), dtype=bool)
+            bx2 = ex2
+        else:
+            ex2 = np.array(ctx.driver.Q("spec.ellipse", a, b, c2, L([r[:2] for r in moved])), dtype=bool)
+            bx2 = np.array(ctx.driver.Q("ellipse.inside", a, b, c1, L([r for r in moved])), dtype=bool)
+        ctx.count("requery:after-move")
+        for i in range(npts):
+            if not fc2[i] or bool(r2[i]) == bool(ex2[i]):
+                continue
+            if (not is_circle) and (not fb2[i] or bool(r2[i]) == bool(bx2[i])):
+                continue          # near a box face, or the listed box-test finding (reported above on the fresh shape)
+            ctx.fail(cls + ".is_inside:membership:after-move",
+                     "is_inside of the same object after its centre setter differs from exact membership about the "
+                     "new centre", dict(case, points=[case["points"][i]], zoff=[]),
+                     {"impl": bool(r2[i]), "exact": bool(ex2[i]), "reached": how, "new-centre": c1.tolist()})
+            break
+
 
 # ----------------------------------------------------------------------------- entry points
 
@@ -436,12 +863,12 @@ def run(ctx):
     for case in fixed_cases():
         ctx.case(case)
         eval_case(ctx, case)
-    npoly = ctx.budget(220, 2500)
+    npoly = ctx.budget(190, 1800)
     for _ in range(npoly):
         case = make_polygon_case(ctx.rng, ctx)
         ctx.case(case)
         eval_case(ctx, case)
-    ncurved = ctx.budget(120, 1500)
+    ncurved = ctx.budget(100, 1100)
     for _ in range(ncurved):
         case = make_curved_case(ctx.rng, ctx)
         ctx.case(case)
